@@ -58,6 +58,10 @@ def twos8 (v : Int) : Nat := if v < 0 then (256 + v).toNat else v.toNat
 def printable (s : List Nat) : Prop := ∀ c ∈ s, 32 ≤ c ∧ c ≤ 126
 instance (s : List Nat) : Decidable (printable s) := by unfold printable; infer_instance
 
+/-- 7-bit ASCII, control characters and NUL included (what an Aidon visible-string may carry verbatim) -/
+def ascii7 (s : List Nat) : Prop := ∀ c ∈ s, c < 128
+instance (s : List Nat) : Decidable (ascii7 s) := by unfold ascii7; infer_instance
+
 def Obis6 (o : List Nat) : Prop := o.length = 6 ∧ ∀ b ∈ o, b < 256
 instance (o : List Nat) : Decidable (Obis6 o) := by unfold Obis6; infer_instance
 
@@ -121,7 +125,7 @@ def encAidonElem : AidonElem → List Nat
   | .reg o ty v sc u => [2, 3] ++ encObis o ++ encReg ty v ++ [2, 2, 15, twos8 sc, 22, u]
 
 def AidonElem.WF : AidonElem → Prop
-  | .text o s => Obis6 o ∧ printable s ∧ s.length ≤ 255
+  | .text o s => Obis6 o ∧ ascii7 s ∧ s.length ≤ 255
   | .clock o d => Obis6 o ∧ d.Valid
   | .reg o ty v sc u => Obis6 o ∧ regInRange ty v ∧ -128 ≤ sc ∧ sc ≤ 127 ∧ u < 256
 
